@@ -149,6 +149,8 @@ class MiniEval(object):
         if isinstance(e, ast.Name):
             if e.id in env:
                 return env[e.id]
+            if e.id in ('date', 'datetime', 'time', 'list', 'tuple', 'str', 'bytes', 'int', 'float', 'bool', 'Decimal'):
+                return Val('type', e.id)
             raise _Undecidable('name %s' % e.id)
         if isinstance(e, ast.Attribute) and isinstance(e.value, ast.Call) and \
                 norm(e.value.func) == 'type' and e.attr == '__name__' and len(e.value.args) == 1:
@@ -183,6 +185,9 @@ class MiniEval(object):
             l = self.ev(e.left, env, fn)
             r = self.ev(e.comparators[0], env, fn)
             op = e.ops[0]
+            if isinstance(op, (ast.Is, ast.IsNot, ast.Eq, ast.NotEq)) and l.kind == 'type' and r.kind == 'type':
+                res = l.pytype == r.pytype
+                return Val('const', 'bool', res if isinstance(op, (ast.Is, ast.Eq)) else not res)
             if isinstance(op, (ast.Is, ast.IsNot)):
                 if r.kind == 'const' and r.inner is None:
                     res = (l.kind == 'raw' and l.pytype == 'None') or (l.kind == 'const' and l.inner is None)
@@ -195,6 +200,18 @@ class MiniEval(object):
             raise _Undecidable('comparison %s' % norm(e))
         if isinstance(e, ast.Call):
             fnm = norm(e.func)
+            if fnm == 'type' and len(e.args) == 1:
+                v = self.ev(e.args[0], env, fn)
+                if v.kind == 'raw':
+                    return Val('type', v.pytype)
+                if v.kind == 'cmp':
+                    return Val('type', 'Comparable')
+                raise _Undecidable('type of %r' % v)
+            if isinstance(e.func, ast.Attribute) and e.func.attr in ('date', 'time') and not e.args:
+                v = self.ev(e.func.value, env, fn)
+                if v.kind == 'raw' and v.pytype == 'datetime':
+                    return raw(e.func.attr)
+                raise _Undecidable('method %s on %r' % (e.func.attr, v))
             if fnm == 'isinstance' and len(e.args) == 2:
                 v = self.ev(e.args[0], env, fn)
                 classes = self.classes(e.args[1])
@@ -227,7 +244,11 @@ class MiniEval(object):
             nm = norm(n)
             if nm in PY3_NAMES:
                 out |= set(PY3_NAMES[nm])
-            elif nm in ('list', 'tuple', 'str', 'bytes', 'int', 'float', 'bool', 'Comparable', 'Decimal'):
+            elif nm in ('list', 'tuple', 'str', 'bytes', 'int', 'float', 'bool', 'Comparable', 'Decimal', 'date', 'datetime',
+                        'time', 'datetime.date', 'datetime.datetime', 'datetime.time'):
+                nm = nm.split('.')[-1]
+                out.add(nm)
+            elif False:
                 out.add(nm)
             else:
                 raise _Undecidable('class %s' % nm)
